@@ -48,27 +48,31 @@ Theorem C02_all_or_nothing : forall (N : NumOps) (e : engine N) k fs now debit,
 Proof. exact @submit_all_or_nothing. Qed.
 Print Assumptions C02_all_or_nothing.
 
-(** Several flights reported in order and not older than the newest stored flight: the submission
-    is refused as grounded only if the traveller is grounded at its first flight. *)
-Theorem C02_in_order_submission : forall (N : NumOps) fs (t : traveller N) pc now p debit,
-  ordered (t_hist t) -> ~ grounded t now -> in_order (fstart (getf (entries (t_hist t)) 0)) fs ->
-  submit_loop t pc fs now p debit <> inr EGrounded.
-Proof. exact @in_order_submission_not_grounded. Qed.
-Print Assumptions C02_in_order_submission.
+(** A submission of any number of flights, in any order (with the repair: clearance is decided once per
+    check-in, at its first flight): refused as grounded if and only if the traveller is grounded at
+    the moment of the check-in. *)
+Theorem C02_any_submission_refused_iff_grounded : forall (N : NumOps) (t : traveller N) pc f r now p debit,
+  submit_loop t pc (f :: r) now p debit = inr EGrounded <-> grounded t now.
+Proof. exact @submission_grounded_iff. Qed.
+Print Assumptions C02_any_submission_refused_iff_grounded.
 
-(** Without the in-order hypothesis the statement is false of the model — and of the code (known
-    finding): a two-flight submission whose first flight is older than the stored trip-end head is
-    refused although the traveller is not grounded (the second flight is judged after the debit). *)
+Theorem C02_any_submission_at_the_engine : forall (N : NumOps) (e : engine N) k f r now debit,
+  snd (submit_flights e k (f :: r) now debit) = Some EGrounded <-> grounded (get_create e k now) now.
+Proof. exact @submit_flights_grounded_iff. Qed.
+Print Assumptions C02_any_submission_at_the_engine.
+
+(** Non-vacuity / regression witness: the two-flight submission whose first flight is older than the
+    stored trip-end head - refused by the code before the repair although the traveller was in credit -
+    is accepted. *)
 Definition p2 : params NumZ := mkParams (N:=NumZ) 2 4 1 0 0 0 0 0 0 0 0 0 0 1.
 Definition gz (s d : Z) : flight NumZ := mkFlight (N:=NumZ) Fl s (s + 100) 1 2 d.
 Definition e2 : engine NumZ :=
   fold_left e_apply [OSubmit 5 [gz (10 * 86400 + 1) 300] (10 * 86400) false; OUpdate (14 * 86400) []]
             (engine0 {| a_params := p2; a_pred := PNone; a_pc := empty_pc; a_grounded := 0 |}).
-Lemma C02_out_of_order_submission_refuted :
+Example C02_out_of_order_submission_accepted :
   ~ grounded (get_create e2 5 (15 * 86400)) (15 * 86400) /\
-  snd (submit_flights e2 5 [gz (9 * 86400) 50; gz (15 * 86400 + 7) 60] (15 * 86400) true) = Some EGrounded.
+  snd (submit_flights e2 5 [gz (9 * 86400) 50; gz (15 * 86400 + 7) 60] (15 * 86400) true) = None.
 Proof.
   split; [|vm_compute; reflexivity].
   apply in_credit_never_grounded. vm_compute. reflexivity.
 Qed.
-Print Assumptions C02_out_of_order_submission_refuted.
